@@ -41,6 +41,8 @@ pub enum StaleSite {
     InUse(usize),
     /// `LIST_HEAD.load(Relaxed)` before the push loop.
     Head,
+    /// `Cache::revalidate`, the Relaxed read of the storage (address). Its value IS trusted.
+    Cache(usize),
 }
 
 pub struct Cell {
@@ -72,6 +74,8 @@ pub struct World {
     /// Per (thread, address): index into `loc_hist` of the newest write this thread has seen
     /// (read or written itself); coherence forbids reading anything older.
     pub view: HashMap<(usize, usize), usize>,
+    /// Per location, parallel to `loc_hist`: the view each write releases (address -> index).
+    pub loc_mv: HashMap<usize, Vec<std::sync::Arc<HashMap<usize, usize>>>>,
     pub nodes: Vec<verif::NodeAddrs>,
     pub head_addr: usize,
     pub steps: u64,
@@ -113,6 +117,7 @@ pub fn init_world(nthreads: usize) {
         store_hist: Vec::new(),
         loc_hist: HashMap::new(),
         view: HashMap::new(),
+        loc_mv: HashMap::new(),
         nodes: Vec::new(),
         head_addr: verif::list_head_addr(),
         steps: 0,
@@ -343,6 +348,7 @@ fn hook_pre(acc: &Access) -> Decision {
                     Class::Slot(_, i) if i < 8 && acc.ord == Ordering::Relaxed && file.ends_with("fast.rs") => Some(StaleSite::Scan(acc.addr)),
                     Class::InUse(_) if acc.ord == Ordering::Acquire && file.ends_with("list.rs") => Some(StaleSite::InUse(acc.addr)),
                     Class::Head if acc.ord == Ordering::Relaxed && file.ends_with("list.rs") => Some(StaleSite::Head),
+                    Class::Store(_) if acc.ord == Ordering::Relaxed && file.ends_with("cache.rs") => Some(StaleSite::Cache(acc.addr)),
                     _ => None,
                 })
             } else {
@@ -359,6 +365,7 @@ fn hook_pre(acc: &Access) -> Decision {
                         Some(StaleSite::First(_)) => "stale_first",
                         Some(StaleSite::Scan(_)) => "stale_scan",
                         Some(StaleSite::InUse(_)) => "stale_inuse",
+                        Some(StaleSite::Cache(_)) => "stale_cache",
                         _ => "stale_head",
                     };
                     *w.stats.entry(k).or_insert(0) += 1;
@@ -553,7 +560,57 @@ fn hook_post(acc: &Access, old: usize, ok: bool) {
                 let lo = w.view.get(&(me, acc.addr)).copied().unwrap_or(0);
                 (lo..h.len()).rev().find(|&i| h[i].1 == co).unwrap_or(h.len() - 1)
             };
-            w.view.insert((me, acc.addr), seen);
+            let hlen = h.len();
+            // release / acquire: every write carries the view it releases, an acquiring read joins it
+            let is_acq = |o: Ordering| matches!(o, Ordering::Acquire | Ordering::AcqRel | Ordering::SeqCst);
+            let is_rel = |o: Ordering| matches!(o, Ordering::Release | Ordering::AcqRel | Ordering::SeqCst);
+            let mvs = w.loc_mv.entry(acc.addr).or_insert_with(Vec::new);
+            let before = if wrote { hlen - 1 } else { hlen };
+            while mvs.len() < before {
+                mvs.push(std::sync::Arc::new(HashMap::new()));
+            }
+            let mut joined: Option<std::sync::Arc<HashMap<usize, usize>>> = None;
+            if !wrote {
+                let oo = if acc.op == Op::Load { acc.ord } else { acc.fail_ord };
+                if is_acq(oo) {
+                    joined = Some(mvs[seen].clone());
+                }
+            } else if acc.op != Op::Store && is_acq(acc.ord) {
+                joined = Some(mvs[before - 1].clone());
+            }
+            let prev_mv = if wrote && acc.op != Op::Store { Some(mvs[before - 1].clone()) } else { None };
+            if let Some(j) = joined {
+                for (&a, &i) in j.iter() {
+                    let e = w.view.entry((me, a)).or_insert(0);
+                    if *e < i {
+                        *e = i;
+                    }
+                }
+            }
+            {
+                let e = w.view.entry((me, acc.addr)).or_insert(0);
+                if *e < seen {
+                    *e = seen;
+                }
+            }
+            if wrote {
+                // a read-modify-write continues the release sequence of the write it replaces
+                let mut mv: HashMap<usize, usize> = match prev_mv {
+                    Some(p) => (*p).clone(),
+                    None => HashMap::new(),
+                };
+                if is_rel(acc.ord) {
+                    for (&(t, a), &i) in w.view.iter() {
+                        if t == me {
+                            let e = mv.entry(a).or_insert(0);
+                            if *e < i {
+                                *e = i;
+                            }
+                        }
+                    }
+                }
+                w.loc_mv.get_mut(&acc.addr).unwrap().push(std::sync::Arc::new(mv));
+            }
         }
         if let Class::Store(c) = cl {
             if matches!(acc.op, Op::Swap | Op::Cas | Op::CasWeak) && ok {
